@@ -46,10 +46,12 @@ func init() {
 
 // Answer is what an in-memory target serves.
 type Answer struct {
-	Err         error  // transport error
-	Status      int    // default 200
-	Body        []byte // identity body
-	Gzip        bool
+	Err    error  // transport error
+	Status int    // default 200
+	Body   []byte // identity body
+	Gzip   bool
+	// Encoding overrides the value of the Content-Encoding header of a gzip answer ("GZIP", "x-gzip")
+	Encoding    string
 	ContentType string
 	// BodyReader, when set, replaces Body (scripted chunking / failures)
 	BodyReader func() io.ReadCloser
@@ -88,6 +90,9 @@ func (t *Targets) RoundTrip(req *http.Request) (*http.Response, error) {
 		body = a.BodyReader()
 		if a.Gzip {
 			h.Set("Content-Encoding", "gzip")
+			if a.Encoding != "" {
+				h.Set("Content-Encoding", a.Encoding)
+			}
 		}
 	} else if a.Gzip {
 		var buf bytes.Buffer
